@@ -406,6 +406,57 @@ def apply_rules(body, counts):
     return body
 
 
+def apply_for_rewrites(body, for_rewrites, counts):
+    counts.pop("R14.fn", None)
+    # loops are numbered in textual order within the function: process the earliest match first
+    while True:
+        best = None
+        for fr in for_rewrites:
+            m = re.compile(fr[0] + r"\s*\{").search(body)
+            if m and (best is None or m.start() < best[1].start()):
+                best = (fr, m)
+        if best is None:
+            counts.pop("R14.fn", None)
+            return body
+        body = _apply_one_for(body, best[0], best[1], counts)
+
+
+def _apply_one_for(body, fr, m, counts):
+    (hdr, init, cond, bind, step, _why) = fr
+    if True:
+        if True:
+            b = m.end() - 1
+            e = match_close(body, b)
+            inner = body[b + 1:e]
+            ex = lambda t: m.expand(t)
+            counts["R14"] = counts.get("R14", 0) + 1
+            nth = str(counts["R14.fn"] + 1) if "R14.fn" in counts else "1"
+            counts["R14.fn"] = int(nth)
+            rep = (ex(init) + "\n while " + ex(cond) + " {\n " + ex(bind) + "\n" + inner + "\n " + ex(step) + "\n }").replace("#", nth)
+            return body[:m.start()] + rep + body[e + 1:]
+
+
+def _old_apply_for_rewrites(body, for_rewrites, counts):
+    for (hdr, init, cond, bind, step, _why) in for_rewrites:
+        pat = re.compile(hdr + r"\s*\{")
+        pos = 0
+        while True:
+            m = pat.search(body, pos)
+            if not m:
+                break
+            b = m.end() - 1
+            e = match_close(body, b)
+            inner = body[b + 1:e]
+            ex = lambda t: m.expand(t)
+            counts["R14"] = counts.get("R14", 0) + 1
+            nth = str(counts["R14.fn"] + 1) if "R14.fn" in counts else "1"
+            counts["R14.fn"] = int(nth)
+            rep = (ex(init) + "\n while " + ex(cond) + " {\n " + ex(bind) + "\n" + inner + "\n " + ex(step) + "\n }").replace("#", nth)
+            body = body[:m.start()] + rep + body[e + 1:]
+            pos = m.start() + len(ex(init)) + 10
+    return body
+
+
 def bind_tail_expr(body, fnq):
     """`...; TAIL` -> `...; let vx_r = TAIL; vx_r` so that proof hints can follow the computation
     of the result (annotation plumbing only: evaluation order and value are unchanged)."""
@@ -480,6 +531,9 @@ class Unit:
         self.type_rewrites = []  # (regex, repl, why) applied to every extracted signature/body/struct
         self.witnesses = []  # names of proof fns that are reachability witnesses
         self.pre_rewrites = []  # (regex, repl, why) applied to every extracted body BEFORE the global rules
+        # R14: (header regex `for PAT in EXPR`, init, cond, bind, step, why): a `for` over an
+        # external (hashbrown) iterator becomes an index loop over a ghost enumeration of the table
+        self.for_rewrites = []
         self.label_props = {}  # label prefix -> [property ids] (longest prefix wins)
         self.rlimit = 30
 
@@ -571,8 +625,6 @@ class Emitter:
                 body = body.rstrip()
                 if body.endswith(";") or body.endswith("}"):
                     # no trailing expression (unit function, or a block statement): append
-                    if body.endswith("}") and not re.search(r"\n\s*\}$", body):
-                        raise Inconclusive(f"unsupported construct: {fnq}: cannot place end hint")
                     body = body + "\n" + h.text + "\n"
                 else:
                     k = body.rfind("\n")
@@ -622,6 +674,7 @@ class Emitter:
         body0 = ft.body
         for pat, repl, _ in self.unit.pre_rewrites:
             body0 = re.sub(pat, repl, body0, flags=re.S)
+        body0 = apply_for_rewrites(body0, self.unit.for_rewrites, counts)
         body = apply_rules(body0, counts)
         for k, v in counts.items():
             self.rule_counts[k] = self.rule_counts.get(k, 0) + v
